@@ -224,6 +224,20 @@ def run(ctx):
                 viol(f'{fam}: after its parameters were re-set from weeks to years, the variates are {v2[:2]} ...; a distribution built in years draws {r2[:2]} ... at the same state (ratio {float(np.median(v2 / r2)):.5f})', dict(family=fam, probe='tp-reset-unit'))
     except Exception as E:
         viol(f'changing the unit of a time-wrapped parameter between draws raised {type(E).__name__}: {E}', dict(probe='tp-reset-unit'))
+    # a distribution-valued module parameter whose default is written in one unit, overridden by a duration without a unit (= the module's unit) or in another unit
+    try:
+        from harness.probes import DelayDays
+        for unit, dt in [('year', 0.1), ('year', 1.0), ('week', 1.0), ('day', 2.0)]:
+            kw2 = dict(start=2000, stop=2001) if unit == 'year' else dict(start='2000-01-01', stop='2000-03-01')
+            for spec, vv, vunit in (('ss.dur(2)', 2.0, None), ('ss.dur(3, "week")', 3.0, 'week')):
+                sx = ss.Sim(n_agents=40, unit=unit, dt=dt, interventions=DelayDays(delay=ss.dur(vv, unit=vunit) if vunit else ss.dur(vv)), verbose=0, **kw2); sx.init()
+                got = np.asarray(sx.interventions[0].pars.delay.rvs(sx.people.auids), dtype=float)
+                want = vv * float(ss.time_ratio(unit1=vunit or unit, dt1=1.0, unit2=unit, dt2=dt))
+                ctx.count(('tp-override', unit, dt, spec), nontrivial=True); ctx.dist('time-wrapped default overridden')
+                if not np.allclose(got, want, rtol=1e-9):
+                    viol(f'a module parameter with default ss.constant(v=ss.days(5)) overridden by {spec} in a {unit}/{dt} module yields {np.unique(got)[:3]} steps; {spec} is {want} steps', dict(probe='tp-override', unit=unit, dt=dt, spec=spec))
+    except Exception as E:
+        viol(f'overriding a time-wrapped default raised {type(E).__name__}: {E}', dict(probe='tp-override'))
     # a time-wrapped callable probability is evaluated afresh at every call
     try:
         s3 = ss.Sim(n_agents=4000, dur=3, verbose=0, diseases=ss.SIS()); s3.init(); mod3 = s3.diseases.sis
@@ -238,6 +252,19 @@ def run(ctx):
                 viol(f'bernoulli(p={wrap} callable): the callable returned 0.9 at the first call and 0.05 at the second; observed frequencies {f1:.3f} and {f2:.3f}', dict(wrap=wrap, f1=f1, f2=f2))
     except Exception as E:
         viol(f'bernoulli with a (time-wrapped) callable probability raised {type(E).__name__}: {E}', dict(probe='tp-callable'))
+    # per-agent probabilities wrapped in a time unit, with entries exactly 0 and exactly 1: never / always, like the scalar path
+    try:
+        s4 = ss.Sim(n_agents=900, dur=2, verbose=0, diseases=ss.SIS()); s4.init(); mod4 = s4.diseases.sis; au4 = s4.people.auids
+        pvec = np.tile(np.array([0.0, 1.0, 0.4]), len(au4) // 3 + 1)[:len(au4)]
+        for wrap in ('time_prob array', 'time_prob callable'):
+            pv = ss.time_prob(pvec.copy(), parent_dt=1.0, parent_unit='year').init() if wrap.endswith('array') else ss.time_prob((lambda self, sim, uids: pvec[:len(uids)].copy()), parent_dt=1.0, parent_unit='year').init(update_values=False)
+            d = ss.bernoulli(p=pv); d.init(trace='c05_tp01', seed=rng.randrange(1, 10**6), sim=s4, module=mod4, force=True)
+            out = np.asarray(d.rvs(au4), dtype=bool)
+            ctx.count(('tp-01', wrap), nontrivial=True); ctx.dist('time-wrapped per-agent probabilities with 0 and 1')
+            if out[pvec == 1.0].mean() < 1.0 or out[pvec == 0.0].any():
+                viol(f'bernoulli(p={wrap} with entries 0, 1, 0.4): agents with p = 1 selected with frequency {out[pvec == 1.0].mean():.3f}, agents with p = 0 with frequency {out[pvec == 0.0].mean():.3f}', dict(probe='tp-01', wrap=wrap))
+    except Exception as E:
+        viol(f'bernoulli with time-wrapped per-agent probabilities raised {type(E).__name__}: {E}', dict(probe='tp-01'))
     # ---------------------------------------------------------------- discrete choice (NumPy's cdf / searchsorted, modelled in L1_Choice)
     cterms, cmeta, pterms, pmeta = [], [], [], []
     for rep in range(ctx.n(6, 30)):
